@@ -463,6 +463,49 @@ def program_cases(r: random.Random, tier: str) -> list[tuple[dict[str, str], str
                 t["base"] = "B1\n{% block b %}base{% endblock %}\n" + body
                 t["main"] = "{% extends 'base' %}{% block b %}\n" + hist + "\nchild{% endblock %}"
                 out.append((t, "main", "base", strict))
+
+    # errors whose token belongs to a template other than the one being rendered when they are raised
+    def fill(lo: int, hi: int) -> str:
+        return "".join(r.choice(fillers) + "\n" for _ in range(r.randint(lo, hi)))
+
+    for rep in range(6 if tier == "thorough" else 2):
+        # a duplicate block in a base (or middle) template of the chain
+        t = dict(PARTIALS)
+        t["base"] = "B1\n{% block a %}1{% endblock %}\n" + fill(1, 4) + r.choice(["", "  "]) + "{% block a %}2{% endblock %}\nend"
+        t["mid"] = "{% extends 'base' %}" + fill(0, 2)
+        t["main"] = r.choice(["{% extends 'base' %}{% block a %}L{% endblock %}", "{% extends 'mid' %}\n{% block a %}L{% endblock %}"])
+        out.append((t, "main", "base", False))
+        t = dict(PARTIALS)
+        t["base"] = "B1\n{% block a %}1{% endblock %}"
+        t["mid"] = "{% extends 'base' %}\n" + fill(1, 3) + "{% block a %}m{% endblock %}\n" + fill(0, 2) + "{% block a %}n{% endblock %}"
+        t["main"] = "{% extends 'mid' %}"
+        out.append((t, "main", "mid", False))
+        # the body of a macro defined in an included template, called from the includer
+        for fail, strict in FAILING:
+            if "break" in fail or (rep and tier != "thorough" and "divided_by" not in fail):
+                continue
+            t = dict(PARTIALS)
+            t["inc"] = fill(2, 5) + r.choice(["", "  ", "\t"]) + "{% macro m %}" + r.choice(["", "text ", "\n"]) + fail + "{% endmacro %}\n" + fill(0, 2)
+            t["main"] = r.choice(["{% include 'inc' %}{% call m %}", "x{% include 'inc' %}\n{% for i in (1..2) %}{% call m %}{% endfor %}",
+                                  "{% include 'inc' %}{% capture c %}{% call m %}{% endcapture %}"])
+            out.append((t, "main", "inc", strict))
+        # an undefined value made in one template and used (under StrictUndefined) in another: the error
+        # carries the token of the place that made it, so it must name that template
+        items = "{% assign items = 'a,b' | split: ',' %}"
+        for main, item in [
+            (items + fill(0, 2) + "text {% render 'item' for items as item %}", fill(0, 3) + "{{ forloop.parentloop.index }}"),
+            (items + "{% render 'item' for items as item %}", fill(1, 3) + "  {% if forloop.parentloop %}{% endif %}"),
+            (fill(0, 3) + "text {% render 'item', a: nosuch %}", fill(1, 3) + "{{ a }}"),
+            (fill(0, 3) + "{% render 'item', a: nosuch.b %}", fill(1, 3) + "{{ a.c }}"),
+            (fill(0, 3) + " {% include 'item' with nosuch as x %}", fill(1, 3) + "{{ x }}"),
+            (fill(0, 3) + "{% include 'item', x: nosuch.y %}", fill(1, 3) + "{% if x %}{% endif %}"),
+            (fill(0, 3) + "{% assign x = nosuch %}\n{% include 'item' %}", fill(1, 3) + "{{ x }}"),
+            ("{% include 'item' %}" + fill(1, 3) + "text {% call m nosuch %}", fill(1, 3) + "{% macro m a %}{{ a }}{% endmacro %}"),
+            ("{% include 'item' %}" + fill(1, 3) + "text {% call m %}", fill(1, 3) + "{% macro m a %}{{ a }}{% endmacro %}"),
+        ]:
+            t = dict(PARTIALS)
+            t["main"], t["item"] = main, item
+            out.append((t, "main", "main", True))
     return out
 
 
